@@ -43,6 +43,131 @@ fn event(run: i64, v: &Vec<f64>, vi: &Vec<i64>, copy: bool, out: &mut Out) {
     }
 }
 
+/// An adversarial ORDER of n distinct keys for the library's quicksort (input generation
+/// only).  McIlroy's "killer adversary": the routine of src/algorithm/sort/quick_sort.rs
+/// (insertion sort below 8 elements, median-of-three pivot moved to l+1, sentinel scans) is
+/// run here on item ids whose keys are decided lazily -- an item stays "gas" (larger than
+/// every decided key) until a comparison of two gas items forces one of them, the current
+/// pivot candidate, to be frozen at the next small value.  Every pivot therefore ends up
+/// among the smallest keys of its range and every partition step splits into a few
+/// elements and the rest: the partition tree degenerates into a chain as deep as n/2,
+/// which is what a sort with a bounded explicit stack must survive.  Returns the key of
+/// every position (a permutation of 0..n-1).
+fn killer_order(n: usize) -> Vec<i64> {
+    struct Adv {
+        val: Vec<i64>,
+        gas: i64,
+        nsolid: i64,
+        candidate: usize,
+    }
+    impl Adv {
+        fn freeze(&mut self, x: usize) {
+            self.val[x] = self.nsolid;
+            self.nsolid += 1;
+        }
+        /// sign of key(x) - key(y)
+        fn cmp(&mut self, x: usize, y: usize) -> i64 {
+            if x == y {
+                return 0;
+            }
+            if self.val[x] == self.gas && self.val[y] == self.gas {
+                if x == self.candidate {
+                    self.freeze(x);
+                } else {
+                    self.freeze(y);
+                }
+            }
+            if self.val[x] == self.gas {
+                self.candidate = x;
+            } else if self.val[y] == self.gas {
+                self.candidate = y;
+            }
+            self.val[x] - self.val[y]
+        }
+    }
+    if n == 0 {
+        return vec![];
+    }
+    let mut ad = Adv { val: vec![n as i64; n], gas: n as i64, nsolid: 0, candidate: 0 };
+    let mut it: Vec<usize> = (0..n).collect(); // it[k] = id of the item now at position k
+    let mut stack: Vec<(usize, usize)> = Vec::new();
+    let (mut l, mut ir) = (0usize, n - 1);
+    loop {
+        if ir - l < 7 {
+            for j in l + 1..=ir {
+                let a = it[j];
+                let mut i = j as i64 - 1;
+                while i >= l as i64 {
+                    if ad.cmp(it[i as usize], a) <= 0 {
+                        break;
+                    }
+                    it[(i + 1) as usize] = it[i as usize];
+                    i -= 1;
+                }
+                it[(i + 1) as usize] = a;
+            }
+            match stack.pop() {
+                None => break,
+                Some((a, b)) => {
+                    l = a;
+                    ir = b;
+                }
+            }
+        } else {
+            let k = (l + ir) >> 1;
+            it.swap(k, l + 1);
+            if ad.cmp(it[l], it[ir]) > 0 {
+                it.swap(l, ir);
+            }
+            if ad.cmp(it[l + 1], it[ir]) > 0 {
+                it.swap(l + 1, ir);
+            }
+            if ad.cmp(it[l], it[l + 1]) > 0 {
+                it.swap(l, l + 1);
+            }
+            let mut i = l + 1;
+            let mut j = ir;
+            let a = it[l + 1];
+            loop {
+                loop {
+                    i += 1;
+                    if ad.cmp(it[i], a) >= 0 {
+                        break;
+                    }
+                }
+                loop {
+                    j -= 1;
+                    if ad.cmp(it[j], a) <= 0 {
+                        break;
+                    }
+                }
+                if j < i {
+                    break;
+                }
+                it.swap(i, j);
+            }
+            it[l + 1] = it[j];
+            it[j] = a;
+            // larger part deferred, smaller part next (as the library does)
+            if ir - i + 1 >= j - l {
+                stack.push((i, ir));
+                ir = j - 1;
+            } else {
+                stack.push((l, j - 1));
+                l = i;
+            }
+        }
+    }
+    // items never compared while gas keep the remaining large keys
+    for x in 0..n {
+        if ad.val[x] == ad.gas {
+            ad.val[x] = ad.nsolid;
+            ad.nsolid += 1;
+        }
+    }
+    ad.val
+}
+
 fn main() {
     let args: Vec<String> = std::env::args().skip(1).collect();
     silence_panics();
@@ -92,6 +217,24 @@ fn main() {
                 let vi = dense_ranks(&v);
                 run += 1;
                 event(run, &v, &vi, t % 3 == 0, &mut out);
+            }
+            // adversarial ORDER family: median-of-three killers (partition tree a chain ~n/2
+            // deep), plain, reversed, mirrored and with tied pairs; the explicit stack of the
+            // routine must stay bounded by log2 n whatever the order
+            for (t, &n) in [72usize, 80, 100, 128, 200, 256, 300, 400].iter().enumerate() {
+                let base = killer_order(n);
+                let variants: Vec<Vec<i64>> = vec![
+                    base.clone(),
+                    base.iter().rev().cloned().collect(),
+                    base.iter().map(|&k| n as i64 - 1 - k).collect(),
+                    base.iter().map(|&k| k / 2).collect(),
+                ];
+                for (vi_, keys) in variants.iter().enumerate() {
+                    let v: Vec<f64> = keys.iter().map(|&k| k as f64 / 512.0).collect();
+                    let vi = dense_ranks(&v);
+                    run += 1;
+                    event(run, &v, &vi, (t + vi_) % 3 == 0, &mut out);
+                }
             }
         }
         _ => {
